@@ -117,7 +117,8 @@ package cert
 //@   assume typeis(key, "*crypto/rsa.PrivateKey") ==> R.PublicKey.N != nil
 //@   assigns ctx.PrivateKey; ctx.TbsCertificate.PublicKey
 //@   ensures @C05,C14 ctx.PrivateKey == key
-//@   ensures @C05,C14 typeis(key, "*crypto/rsa.PrivateKey") ==> err == nil && oidv(SPKI.Algorithm.Algorithm) == oid("1.2.840.113549.1.1.1") && SPKI.Algorithm.Parameters.Tag == 5 && SPKI.Algorithm.Parameters.Class == 0 && len(SPKI.Algorithm.Parameters.FullBytes) == 0 && len(SPKI.Algorithm.Parameters.Bytes) == 0 && bytes(SPKI.PublicKey.Bytes) == pkcs1pub(BigVal(R.PublicKey.N), R.PublicKey.E)
+// (C02: rsaEncryption carries NULL parameters in the SubjectPublicKeyInfo too, RFC 3279 2.3.1)
+//@   ensures @C05,C14,C02 typeis(key, "*crypto/rsa.PrivateKey") ==> err == nil && oidv(SPKI.Algorithm.Algorithm) == oid("1.2.840.113549.1.1.1") && SPKI.Algorithm.Parameters.Tag == 5 && SPKI.Algorithm.Parameters.Class == 0 && len(SPKI.Algorithm.Parameters.FullBytes) == 0 && len(SPKI.Algorithm.Parameters.Bytes) == 0 && bytes(SPKI.PublicKey.Bytes) == pkcs1pub(BigVal(R.PublicKey.N), R.PublicKey.E)
 //@   ensures @C05,C14 typeis(key, "*crypto/ecdsa.PrivateKey") ==> err == nil && oidv(SPKI.Algorithm.Algorithm) == oid("1.2.840.10045.2.1") && bytes(SPKI.Algorithm.Parameters.FullBytes) == der(deepOid(specCurveOid(curveId(K.Curve)))) && bytes(SPKI.PublicKey.Bytes) == ecPoint(curveId(K.Curve), BigVal(K.X), BigVal(K.Y))
 //@   ensures @C05,C14 !typeis(key, "*crypto/rsa.PrivateKey") && !typeis(key, "*crypto/ecdsa.PrivateKey") ==> err != nil
 //@   abstracts err == nil ==> deep(ctx.TbsCertificate.PublicKey) == spkiDeep(key)
